@@ -13,6 +13,8 @@ draws before it. Statements:
 The built function returns (acc, outs) where outs is the nested list of every draw.
 """
 
+from . import world  # first: puts $VERIF_REPO/src in front and loads the JAX adapter before genjax
+
 import jax
 import jax.numpy as jnp
 
